@@ -267,12 +267,15 @@ def c11_i3(ctx):
 @rule("C11", "C11-I4", 0, "no mutable global state is shared between transactions (no static mut, no interior-mutable static)")
 def c11_i4(ctx):
     n = 0
+    from controls import static_is_shared_mutable
+
     for s in ctx.prog.statics:
         n += 1
         ty = s.get("ty", "")
-        name = s.get("path", s.get("name", "?"))
-        if s.get("mutbl") or s.get("mutable") or re.search(r"(Mutex|RwLock|Cell|Atomic|OnceLock|OnceCell|Lazy)", ty):
-            yield bad("C11-I4", "static:%s" % name, s.get("span", {}).get("file", "?"), "mutable / interior-mutable static %s: %s" % (name, ty))
+        name = s.get("path", "?")
+        where = "%s:%s" % (s.get("span", {}).get("file", "?"), s.get("span", {}).get("line", "?"))
+        if static_is_shared_mutable(s):
+            yield bad("C11-I4", "static:%s" % name, where, "mutable / interior-mutable static %s: %s (state shared by every transaction)" % (name, ty))
         else:
-            yield ok("C11-I4", "static:%s" % name, s.get("span", {}).get("file", "?"), "immutable static of type %s" % ty)
+            yield ok("C11-I4", "static:%s" % name, where, "immutable static of type %s" % ty)
     yield ok("C11-I4", "statics", "both crates", "%d statics in the workspace crates" % n, nontrivial=False)
